@@ -45,8 +45,8 @@ def run_reuse(c, P):
     endings = P.get('endings', ENDINGS)
     ending = endings[c.choose(len(endings), 'ending')]
     ck = dict(poll=1e9, ping_rate=0, ping_timeout=None, close_timeout=None, auto_pong=True)
-    compress = ending == 'compressed-then-eof' or P.get('compress', False)
-    ext = b'Sec-WebSocket-Extensions: permessage-deflate\r\n' if compress else b''
+    compress = ending in ('compressed-then-eof', 'compressed-then-plain') or P.get('compress', False)
+    ext = b'Sec-WebSocket-Extensions: permessage-deflate\r\n' if (compress and ending != 'compressed-then-plain') else b''
     # ---------------- world A: the reused object
     w = new_world()
     s1 = [c.byte('x%d' % i) for i in range(N1)]
@@ -82,6 +82,17 @@ def run_reuse(c, P):
         def app1(idx, ev, ws_, gen):
             if ev.name == 'ready':
                 ws_.close(1001, b'bye')
+    elif ending == 'compressed-then-plain':
+        # connection 1 negotiates permessage-deflate; connection 2's server does not
+        w.scripts[0] = Script(hconn.server_stream(s1, extra=b'Sec-WebSocket-Extensions: permessage-deflate\r\n'), end='eof')
+    elif ending == 'abandon-keep':
+        # abandoned while suspended at an event, and the generator object is still referenced during connection 2
+        w.scripts[0] = Script(hconn.server_stream([0x81, 0x01, 0x61] + s1), end='eof')
+        at = 2 + c.choose(4, 'abandon_at')
+
+        def app1(idx, ev, ws_, gen, at=at):
+            if idx == at:
+                raise Abandon()
     elif ending == 'abandon':
         w.scripts[0] = Script(hconn.server_stream(s1), end='eof')
         at = c.choose(5, 'abandon_at')
@@ -112,7 +123,7 @@ def run_reuse(c, P):
             return app
         app1 = mk_sender(1)
     rec1 = hconn.drive(w, ws, ck, app1)
-    if getattr(rec1, 'abandoned', False) and rec1.gen is not None:
+    if getattr(rec1, 'abandoned', False) and rec1.gen is not None and ending != 'abandon-keep':
         rec1.gen.close()
     if w.fault_hook is not None:
         w.fault_hook.left = 0
@@ -124,6 +135,10 @@ def run_reuse(c, P):
     state_at_connecting = {}
 
     sender2 = mk_sender(2) if ending == 'compressed-then-eof' else None
+    if ending == 'compressed-then-plain':
+        def sender2(idx, ev, ws_, gen):
+            if ev.name == 'ready':
+                ws_.send_binary(symdata.mk_bytes([c.byte('plain2'), 0x42]))
 
     def app2(idx, ev, ws_, gen):
         if sender2 is not None:
@@ -137,7 +152,8 @@ def run_reuse(c, P):
     wb = new_world()
     wb.default_script = Script(hconn.server_stream(s2, extra=ext), end='eof')
     fresh = L.WebSocket('ws://example.com/', compress=compress)
-    recf = hconn.drive(wb, fresh, ck, mk_sender('fresh') if ending == 'compressed-then-eof' else None)
+    recf = hconn.drive(wb, fresh, ck, mk_sender('fresh') if ending == 'compressed-then-eof' else
+                       (sender2 if ending == 'compressed-then-plain' else None))
     World.cur = w
     c.notes['scenario'] = dict(ending=ending, conn1=rec1.names(), conn2=rec2.names(), fresh=recf.names())
     # ---------------- obligations
